@@ -111,6 +111,10 @@ pub fn rotation(sp: &SpecP, cfg: &CfgP) -> Option<(Criterion, Naming, Cleanup)> 
     out
 }
 
+static BG_SENT: std::sync::atomic::AtomicUsize = std::sync::atomic::AtomicUsize::new(0);
+static BG_WINDOW: std::sync::atomic::AtomicBool = std::sync::atomic::AtomicBool::new(false);
+static BG_DONE: std::sync::atomic::AtomicUsize = std::sync::atomic::AtomicUsize::new(0);
+
 pub fn builder(dir: &Path, sp: &SpecP, cfg: &CfgP, bg_cleanup: bool, mode: Option<WriteMode>) -> FileLogWriterBuilder {
     let mut b = FileLogWriter::builder(file_spec(dir, sp)).format(raw_format).cleanup_in_background_thread(bg_cleanup);
     if let Some((crit, naming, cleanup)) = rotation(sp, cfg) {
@@ -674,6 +678,8 @@ fn execute_inner(ctx: &mut Ctx, lines: &[String]) -> Vec<String> {
         truncating: false,
     };
     let mut h = Hist::default();
+    let mut bg_lockstep = false;
+    let mut bg_adversarial = false;
     let mut nocheck_foreign = false;
     let mut out = Vec::with_capacity(lines.len());
     out.extend(pre_answers.iter().cloned());
@@ -797,8 +803,57 @@ fn execute_inner(ctx: &mut Ctx, lines: &[String]) -> Vec<String> {
                 h.unflushed = false;
                 "ok".into()
             }
+            // 1: cleanup thread in lock-step (after every operation the harness waits until the
+            //    thread has worked off what was handed to it: the schedule of the synchronous model)
+            // 2: cleanup thread free-running (only schedule-independent observations follow)
+            // 3/4: adversarial schedule: the cleanup thread is held back and works off what was handed
+            //    to it exactly inside the next rotation of the main thread — after the file got its
+            //    final name (3: before the new file is opened; 4: after it was opened, before the
+            //    writer is replaced)
+            ["BGCLEAN", b] if *b == "3" || *b == "4" => {
+                f.bg_cleanup = true;
+                BG_SENT.store(0, std::sync::atomic::Ordering::SeqCst);
+                BG_DONE.store(0, std::sync::atomic::Ordering::SeqCst);
+                BG_WINDOW.store(false, std::sync::atomic::Ordering::SeqCst);
+                bg_adversarial = true;
+                let at: &'static str = if *b == "3" { "rot.infix_chosen" } else { "rot.opened" };
+                flexi_logger::verif_hooks::set_point_handler(Some(Arc::new(move |name| {
+                    use std::sync::atomic::Ordering::SeqCst;
+                    let patience = std::time::Duration::from_secs(20);
+                    if name == "cleanup.thread.send" { BG_SENT.fetch_add(1, SeqCst); }
+                    if name == "cleanup.thread.done" { BG_DONE.fetch_add(1, SeqCst); }
+                    if name == "cleanup.thread.act" {
+                        let t0 = std::time::Instant::now();
+                        while !BG_WINDOW.load(SeqCst) && t0.elapsed() < patience { std::thread::sleep(std::time::Duration::from_micros(50)); }
+                    }
+                    if name == at && BG_DONE.load(SeqCst) < BG_SENT.load(SeqCst) {
+                        BG_WINDOW.store(true, SeqCst);
+                        let t0 = std::time::Instant::now();
+                        while BG_DONE.load(SeqCst) < BG_SENT.load(SeqCst) && t0.elapsed() < patience { std::thread::sleep(std::time::Duration::from_micros(50)); }
+                        BG_WINDOW.store(false, SeqCst);
+                    }
+                })));
+                "ok".into()
+            }
             ["BGCLEAN", b] => {
-                f.bg_cleanup = *b == "1";
+                f.bg_cleanup = *b != "0";
+                BG_SENT.store(0, std::sync::atomic::Ordering::SeqCst);
+                BG_DONE.store(0, std::sync::atomic::Ordering::SeqCst);
+                bg_lockstep = *b == "1";
+                if std::env::var_os("FVH_TRACE").is_some() && !bg_lockstep {
+                    let d2 = dir.clone();
+                    flexi_logger::verif_hooks::set_point_handler(Some(Arc::new(move |name| {
+                        let mut l: Vec<String> = std::fs::read_dir(&d2).map(|rd| rd.flatten().map(|e| e.file_name().to_string_lossy().to_string()).collect()).unwrap_or_default();
+                        l.sort();
+                        eprintln!("TRACE {:?} {name} {:?}", std::thread::current().name().unwrap_or("?"), l);
+                    })));
+                }
+                if bg_lockstep {
+                    flexi_logger::verif_hooks::set_point_handler(Some(Arc::new(|name| {
+                        if name == "cleanup.thread.send" { BG_SENT.fetch_add(1, std::sync::atomic::Ordering::SeqCst); }
+                        if name == "cleanup.thread.done" { BG_DONE.fetch_add(1, std::sync::atomic::Ordering::SeqCst); }
+                    })));
+                }
                 "ok".into()
             }
             // a pre-existing file that DOES follow the family pattern (left by somebody, or by an earlier life)
@@ -953,6 +1008,7 @@ fn execute_inner(ctx: &mut Ctx, lines: &[String]) -> Vec<String> {
             }
             ["SHUT"] => {
                 ctx.report.count("op.SHUT");
+                BG_WINDOW.store(true, std::sync::atomic::Ordering::SeqCst);
                 if let Some((w, _)) = &f.w {
                     w.shutdown();
                 }
@@ -962,7 +1018,13 @@ fn execute_inner(ctx: &mut Ctx, lines: &[String]) -> Vec<String> {
             }
             ["RESTART", rest @ ..] if rest.len() == 5 => {
                 ctx.report.count("op.RESTART");
+                BG_WINDOW.store(true, std::sync::atomic::Ordering::SeqCst);
                 f.w = None; // drop = shutdown of the old logger
+                if bg_adversarial {
+                    let t0 = std::time::Instant::now();
+                    while BG_DONE.load(std::sync::atomic::Ordering::SeqCst) < BG_SENT.load(std::sync::atomic::Ordering::SeqCst) && t0.elapsed().as_secs() < 20 { std::thread::yield_now(); }
+                    BG_WINDOW.store(false, std::sync::atomic::Ordering::SeqCst);
+                }
                 h.unflushed = false;
                 f.cfg = parse_cfg(rest);
                 h.restarts += 1;
@@ -1079,10 +1141,20 @@ fn execute_inner(ctx: &mut Ctx, lines: &[String]) -> Vec<String> {
             let mut fa = std::fs::OpenOptions::new().create(true).append(true).open(&c.acks).unwrap();
             writeln!(fa, "{li}").unwrap();
         }
+        if bg_lockstep {
+            let t0 = std::time::Instant::now();
+            while BG_DONE.load(std::sync::atomic::Ordering::SeqCst) < BG_SENT.load(std::sync::atomic::Ordering::SeqCst)
+                && t0.elapsed().as_secs() < 20 {
+                std::thread::yield_now();
+            }
+        }
         out.push(ans);
     }
+    if bg_adversarial { BG_WINDOW.store(true, std::sync::atomic::Ordering::SeqCst); }
+    let bg_any = bg_lockstep || bg_adversarial;
     let f_via_logger = f.via_logger;
     drop(f);
+    if bg_any { flexi_logger::verif_hooks::set_point_handler(None); }
     flexi_logger::verif_hooks::set_virtual_now(None);
     flexi_logger::verif_hooks::set_fault_handler(None);
     if let Some(c) = CRASH_CHILD.lock().unwrap().as_ref() {
@@ -1090,7 +1162,7 @@ fn execute_inner(ctx: &mut Ctx, lines: &[String]) -> Vec<String> {
         flexi_logger::verif_hooks::set_virtual_now(Some(stamp_to_local(20200101000000)));
         dump_creation_table(&c.dir, &c.side);
     }
-    if !in_child { let _ = std::fs::remove_dir_all(&dir); }
+    if !in_child && std::env::var_os("FVH_KEEP").is_none() { let _ = std::fs::remove_dir_all(&dir); }
     if h.rotations > 0 || h.restarts > 0 || (f_via_logger && h.recs.len() > 1) {
         ctx.report.nontrivial_case(lines);
     }
